@@ -1,14 +1,198 @@
 package main
 
 import (
+	"fmt"
+	"go/types"
+	"strings"
+
 	"golang.org/x/tools/go/ssa"
 )
 
-// guardCheck: ownership obligation for guarded fields (see own2.go once implemented).
-func (fr *Frame) guardCheck(st *State, in ssa.Instruction, addr ssa.Value, write bool) {}
+// ---------------------------------------------------------------------------------------------
+// Ownership obligations (DESIGN §3.1):   //@ guarded (*T).field by <lockfield> [deep]
+// Every load / store of the field through a *T - and, with `deep`, every operation on a map that was read
+// out of it (and on the inner maps read out of those) - obliges that the goroutine holds x.<lockfield>:
+// the write lock for modifications, the read or write lock for reads. Values obtained from a guarded map
+// by a copying call (maps.Clone) are not guarded. The obligations are generated in every function the
+// engine verifies, for every access it sees - this is a lockset argument phrased as proof obligations.
+// ---------------------------------------------------------------------------------------------
 
-// noteEffects records blocking effects of a callee for `effects nonblocking` checks.
+type guardDecl struct {
+	typeName string // canonical "pkg.T"
+	field    string
+	lock     string // name of the lock field in the same struct
+	deep     bool
+	atomic   bool // guarded ... by atomic: only sync/atomic access allowed
+	file     string
+	line     int
+}
+
+func (e *Engine) guardDecls() []guardDecl {
+	if e.guards != nil {
+		return e.guards
+	}
+	e.guards = []guardDecl{}
+	for _, b := range e.db.Guarded {
+		// guarded (*T).f by lockfield [deep]
+		h := strings.TrimSpace(strings.TrimPrefix(b.Header, "guarded"))
+		parts := strings.Fields(h)
+		if len(parts) < 3 || parts[1] != "by" {
+			continue
+		}
+		recv := parts[0]
+		k := strings.LastIndex(recv, ").")
+		if k < 0 {
+			continue
+		}
+		tn := strings.TrimPrefix(recv[:k], "(")
+		tn = strings.TrimPrefix(tn, "*")
+		if !strings.Contains(tn, ".") && b.Pkg != "" {
+			tn = b.Pkg + "." + tn
+		}
+		g := guardDecl{typeName: tn, field: recv[k+2:], lock: parts[2], file: b.File, line: b.Line}
+		if g.lock == "atomic" {
+			g.atomic = true
+		}
+		for _, p := range parts[3:] {
+			if p == "deep" {
+				g.deep = true
+			}
+		}
+		e.guards = append(e.guards, g)
+	}
+	return e.guards
+}
+
+type guardTag struct {
+	lock *Term  // address of the lock
+	what string // description
+}
+
+// guardOf: if addr is &x.f for a guarded field f, return the lock address term.
+func (fr *Frame) guardOfFieldAddr(fa *ssa.FieldAddr) (*guardDecl, *Term) {
+	pt, ok := fa.X.Type().Underlying().(*types.Pointer)
+	if !ok {
+		return nil, nil
+	}
+	named, ok := types.Unalias(pt.Elem()).(*types.Named)
+	if !ok {
+		return nil, nil
+	}
+	st, ok := named.Underlying().(*types.Struct)
+	if !ok {
+		return nil, nil
+	}
+	tn := named.Obj().Pkg().Path() + "." + named.Obj().Name()
+	fname := st.Field(fa.Field).Name()
+	for i, g := range fr.fc.eng.guardDecls() {
+		if g.typeName != tn || g.field != fname {
+			continue
+		}
+		if g.atomic {
+			return &fr.fc.eng.guards[i], nil
+		}
+		li := fieldIndex(st, g.lock)
+		if li < 0 {
+			unsup("%s:%d: guard lock field %s not found in %s", g.file, g.line, g.lock, tn)
+		}
+		base, ok2 := fr.env[fa.X]
+		if !ok2 {
+			return nil, nil
+		}
+		off := fr.fc.eng.ti.FieldOffset(st, li)
+		lock := MkPtr(PObj(base.T), Add(PSlot(base.T), IntLit(off)))
+		return &fr.fc.eng.guards[i], lock
+	}
+	return nil, nil
+}
+
+// guardCheck: ownership obligation for the access `in` through address / map value `v`.
+func (fr *Frame) guardCheck(st *State, in ssa.Instruction, v ssa.Value, write bool) {
+	fc := fr.fc
+	if len(fc.eng.guardDecls()) == 0 {
+		return
+	}
+	var tag *guardTag
+	switch x := v.(type) {
+	case *ssa.FieldAddr:
+		g, lock := fr.guardOfFieldAddr(x)
+		if g == nil {
+			return
+		}
+		if g.atomic {
+			fc.oblige(st, "guard", fr.path, TFalse, fr.pos(in), fmt.Sprintf("field %s.%s may only be accessed through sync/atomic", g.typeName, g.field))
+			return
+		}
+		tag = &guardTag{lock: lock, what: g.typeName + "." + g.field}
+		// the loaded value of a deep-guarded field carries the guard
+		if g.deep {
+			if ld, ok := in.(*ssa.UnOp); ok {
+				fr.guardTags[ld] = tag
+			}
+		}
+	default:
+		t, ok := fr.guardTags[v]
+		if !ok {
+			return
+		}
+		tag = t
+		// values read out of a guarded map of maps stay guarded
+		if lk, ok := in.(*ssa.Lookup); ok {
+			if mt, ok := lk.X.Type().Underlying().(*types.Map); ok {
+				if _, inner := mt.Elem().Underlying().(*types.Map); inner {
+					fr.guardTags[lk] = tag
+				}
+			}
+		}
+	}
+	held := Select(fc.heldSet(st), tag.lock)
+	if !write {
+		held = Or(held, Select(fc.rheldSet(st), tag.lock))
+	}
+	// initialisation: an object this function allocated itself is not shared yet
+	if fc.next0 != nil {
+		held = Or(held, Ge(PObj(tag.lock), fc.next0))
+	}
+	kind := "read"
+	if write {
+		kind = "write"
+	}
+	fc.oblige(st, "guard", fr.path, held, fr.pos(in), fmt.Sprintf("%s of %s holds its lock", kind, tag.what))
+}
+
+// propagateGuard: Extract of a guarded comma-ok lookup, Range over a guarded map.
+func (fr *Frame) propagateGuard(from, to ssa.Value) {
+	if t, ok := fr.guardTags[from]; ok {
+		fr.guardTags[to] = t
+	}
+}
+
+// noteEffects records blocking effects of a callee for `effects nonblocking` checks (see structural.go).
 func (fr *Frame) noteEffects(site ssa.Instruction, sp *Block, short string, st *State) {}
 
-// allocCheck: allocation size obligation for functions marked `effects alloc-proportional`.
-func (fr *Frame) allocCheck(st *State, in ssa.Instruction, bytes *Term) {}
+// allocCheck: allocation size obligation for functions that declare `allocbound <expr>`: every allocation of
+// `n` elements made by the function satisfies n <= <expr> (evaluated at the allocation).
+func (fr *Frame) allocCheck(st *State, in ssa.Instruction, n *Term) {
+	fc := fr.fc
+	top := fr
+	for top.parent != nil {
+		top = top.parent
+	}
+	if top.spec == nil {
+		return
+	}
+	for _, c := range top.spec.ClausesOf("allocbound") {
+		if fr != top {
+			// allocations of inlined callees are bounded by the top-level function's expression evaluated at entry
+			ev := top.evalCtx(st, top.entry)
+			ev.at = nil
+			b := top.safeEvalInt(ev, c)
+			fc.oblige(st, "alloc", fr.path, Le(n, b), fr.pos(in), "allocation size proportional to the input: "+c.Text)
+			continue
+		}
+		ev := fr.evalCtx(st, fr.entry)
+		ev.at = in.Block()
+		b := fr.safeEvalInt(ev, c)
+		fc.oblige(st, "alloc", fr.path, Le(n, b), fr.pos(in), "allocation size proportional to the input: "+c.Text)
+	}
+}
